@@ -1,15 +1,29 @@
-"""C08 numeric conversions (integer half): theorems Props.C08 + correspondence stream `num`"""
+"""C08 numeric conversions: theorems Props.C08 + correspondence stream `num`.
+
+Integer half: itoa<int> / fast_atoi<int> against the model (every line compared).
+Floating half: modp_dtoa / fast_atof / Field<double>.  The Lean model is in EXACT arithmetic; binary64 is not formalised.
+  * a `dtoa`/`rt` line is compared with the model byte for byte only when the single rounding operation of modp_dtoa,
+    (value - whole) * pow10_[prec], is exact for that input (decided by the driver in integer arithmetic: flag `x`) and - for `rt` -
+    the parse raised no FE_INEXACT in the real code; an `atof` line is compared when the real parse raised no FE_INEXACT;
+  * every line is judged by the oracle below, which states the PROPERTY on the exact rational value of the input double
+    (fractions.Fraction), independently of the model."""
+import math, re, struct
+from fractions import Fraction
 import vlib, gen_facts
 
-THEOREMS = ['C08_itoa', 'C08_atoi_itoa', 'C08_atoi_no_overflow']
+THEOREMS = ['C08_itoa', 'C08_atoi_itoa', 'C08_atoi_no_overflow',
+            'C08_dtoa_decimal', 'C08_atof_canon', 'C08_atof_dtoa_decimal', 'C08_dtoa_nearest', 'C08_dtoa_prec_clamp',
+            'C08_dtoa_atof_canon', 'C08_dtoa_int_range', 'C08_fixed_tie_carry']
 I32 = (-2**31, 2**31 - 1)
+THRES = 2**31 - 1
+HARNESS_KW = dict(extra_flags=['-fsanitize=float-cast-overflow'], deps=['runtime/modp_numtoa.c'])
 
 
 def hx(s):
     return s.encode('latin1').hex() if s else '-'
 
 
-def gen(rng, n):
+def gen_int(rng, n):
     lines = []
     bnd = [0, 1, -1, 9, 10, -9, -10, 99, 100, -100, 2**31 - 1, -2**31, -2**31 + 1, 2**31 - 2, 10**9, -10**9, 999999999, -999999999,
            1000000000, 214748364, 2147483640, -2147483640, 48, 45]
@@ -43,6 +57,12 @@ def gen(rng, n):
 
 def oracle(line, out):
     w = line.split()
+    if w[0] == 'dtoa':
+        return oracle_dtoa(w[1], int(w[2]), out)
+    if w[0] == 'atof':
+        return oracle_atof(w[1], out)
+    if w[0] == 'rt':
+        return oracle_rt(w[1], int(w[2]), out)
     if w[0] == 'itoa':
         return (out == hx(str(int(w[1]))), None)
     s = bytes.fromhex(w[1]).decode('latin1') if w[1] != '-' else ''
@@ -55,27 +75,362 @@ def oracle(line, out):
     return (out == str(v), None)
 
 
+# ------------------------------------------------------------------------------------------------
+# floating half
+
+def bits_of(x):
+    return struct.pack('>d', x).hex()
+
+
+def dbl(bits):
+    return struct.unpack('>d', bytes.fromhex(bits))[0]
+
+
+def clamp(prec):
+    return 0 if prec < 0 else 9 if prec > 9 else prec
+
+
+def ulp(q):
+    """unit in the last place of the binade of the rational q != 0 (normal range)"""
+    q = abs(q)
+    e = q.numerator.bit_length() - q.denominator.bit_length()
+    if Fraction(2) ** e > q:
+        e -= 1
+    return Fraction(2) ** (max(e, -1022) - 52)
+
+
+def canon(k, p, neg):
+    """canonical text of k / 10^p: what C08_dtoa_decimal calls canonText"""
+    w, f = divmod(k, 10 ** p)
+    s = str(w)
+    if p:
+        fs = ('%0*d' % (p, f)).rstrip('0') or '0'
+        s += '.' + fs
+    return ('-' if neg else '') + s
+
+
+DEC = re.compile(r'-?(\d+)(?:\.(\d+))?\Z')
+
+
+def dec_value(t):
+    m = DEC.match(t)
+    if not m:
+        return None
+    v = Fraction(int(m.group(1))) + (Fraction(int(m.group(2)), 10 ** len(m.group(2))) if m.group(2) else 0)
+    return -v if t.startswith('-') else v
+
+
+def dy(parts):
+    """harness rendering of a double: `mant exp` -> Fraction (None for nan/inf)"""
+    try:
+        return Fraction(int(parts[0])) * Fraction(2) ** int(parts[1])
+    except (ValueError, IndexError):
+        return None
+
+
+def dtoa_class(x, p):
+    """the known-finding classes as exact predicates of the input double x and the clamped precision p"""
+    X = abs(Fraction(x))
+    if X > THRES:
+        return 'dtoa-above-thres-max'
+    f = X - (X.numerator // X.denominator)
+    t = f * 10 ** p
+    tr = Fraction(float(t))            # binary64 rounding of the exact product (Fraction -> float is correctly rounded)
+    if tr - (tr.numerator // tr.denominator) == Fraction(1, 2) and tr != t:
+        return 'dtoa-double-rounding-near-tie'
+    return None
+
+
+def oracle_dtoa(bits, prec, out):
+    x = dbl(bits)
+    if x != x or math.isinf(x) or abs(x) >= 2.0 ** 31:
+        return (None, None)            # outside the domain of the property (see run(): the behaviour is recorded, not judged)
+    p = clamp(prec)
+    X = Fraction(x)
+    klass = dtoa_class(x, p)
+    if out.startswith('abort:'):
+        return (False, klass)
+    parts = out.split()
+    if len(parts) != 4:
+        return (False, None)
+    try:
+        text = bytes.fromhex(parts[0]).decode('latin1')
+    except ValueError:
+        return (False, None)
+    S = abs(X) * 10 ** p
+    J = S.numerator // S.denominator
+    rem = S - J
+    K = J + 1 if rem > Fraction(1, 2) else J if rem < Fraction(1, 2) else (J if J % 2 == 0 else J + 1)   # round half to even (printf)
+    # the text is a decimal with at most p fraction digits denoting sign * K / 10^p (how trailing zeros are trimmed is not part of the property:
+    # the model comparison, not this oracle, pins the canonical form)
+    D = dec_value(text)
+    m = DEC.match(text)
+    ok = D is not None and len(m.group(2) or '') <= p and abs(D) == Fraction(K, 10 ** p) and (not text.startswith('-') or x < 0)
+    if ok and K != 0 and (D < 0) != (x < 0):
+        ok = False
+    # parsing the text returns the decimal it denotes up to the error of the p+1 binary64 additions of fast_atof; together with the
+    # text clause: within half a unit of the last place (+ that error) of x
+    b = dy(parts[1:3])
+    tol = None
+    if D is None or b is None:
+        ok = False
+    else:
+        tol = (p + 2) * ulp(max(abs(D), abs(X), Fraction(1, 2 ** 1000)))
+        if abs(b - D) > tol:
+            ok = False
+    if ok:
+        return (True, None)
+    if klass == 'dtoa-double-rounding-near-tie':
+        # even inside the class the text must be one of the two neighbouring p-digit decimals
+        if tol is None or abs(D) not in (Fraction(J, 10 ** p), Fraction(J + 1, 10 ** p)) or len(m.group(2) or '') > p or abs(b - D) > tol:
+            return (False, None)
+    return (False, klass)
+
+
+EXP = re.compile(r'[eE][+-]?(\d+)')
+
+
+def big_exp(t):
+    """the decimal exponent fast_atof would use is >= 50: it multiplies by the literal 1E50, which is not 10^50"""
+    m = EXP.search(t)
+    return bool(m) and min(int(m.group(1)) % 2 ** 32, 308) >= 50
+
+
+ATOF_PLAIN = re.compile(r'[ \t\n\v\f\r]*([+-]?)(\d+)(?:\.(\d*))?\Z')
+
+
+def oracle_atof(h, out):
+    t = bytes.fromhex(h).decode('latin1') if h != '-' else ''
+    m = ATOF_PLAIN.match(t)
+    if not m or len(m.group(2)) > 15:
+        return (None, None)
+    if out.startswith('abort:'):
+        return (False, None)
+    parts = out.split()
+    b = dy(parts[0:2])
+    if b is None:
+        return (False, None)
+    fr = m.group(3) or ''
+    D = Fraction(int(m.group(2))) + (Fraction(int(fr), 10 ** len(fr)) if fr else 0)
+    if m.group(1) == '-':
+        D = -D
+    if D == 0:
+        return (b == 0, None)
+    return (abs(b - D) <= (len(fr) + 2) * ulp(D), None)
+
+
+def rt_domain(t, p):
+    """a FIX decimal with at most p fraction digits, inside the value domain, and short enough for binary64: (p+2) ulp(x) 10^p < 1/2"""
+    D = dec_value(t)
+    if D is None:
+        return None
+    m = DEC.match(t)
+    if len(m.group(2) or '') > p or abs(D) > THRES or len(m.group(1)) > 15:
+        return None
+    if D != 0 and not (p + 2) * ulp(D) * 10 ** p < Fraction(1, 2):
+        return None
+    return D
+
+
+def oracle_rt(h, prec, out):
+    """re-encoding: the text printed for the parsed value denotes the same decimal, and parsing/printing that text again reproduces it byte for byte"""
+    t = bytes.fromhex(h).decode('latin1') if h != '-' else ''
+    p = clamp(prec)
+    D = rt_domain(t, p)
+    if D is None:
+        return (None, None)
+    if out.startswith('abort:'):
+        return (False, None)
+    parts = out.split()
+    try:
+        t1 = bytes.fromhex(parts[0]).decode('latin1')
+        t2 = bytes.fromhex(parts[1]).decode('latin1')
+    except (ValueError, IndexError):
+        return (False, None)
+    D1 = dec_value(t1)
+    return (D1 is not None and D1 == D and len(DEC.match(t1).group(2) or '') <= p and t2 == t1, None)
+
+
+def nextafter(x, k):
+    """the double k steps away from the finite double x in the ordering of bit patterns (same sign)"""
+    b = int(bits_of(abs(x)), 16) + k
+    b = max(0, min(b, 0x7fefffffffffffff))
+    v = dbl('%016x' % b)
+    return -v if x < 0 else v
+
+
+DIRECTED = [(5.0, 2), (12.25, 2), (-0.5, 2), (400.5, 2), (50.0, 2), (0.0, 2), (-0.0, 2), (0.1, 1), (0.7, 1), (0.15, 1), (0.35, 1), (0.45, 1), (0.25, 1), (0.75, 1),
+            (0.125, 2), (0.375, 2), (0.625, 2), (0.875, 2), (0.5, 0), (1.5, 0), (2.5, 0), (3.5, 0), (-2.5, 0), (0.995, 2), (0.95, 1), (0.9995, 3), (7.9995, 3),
+            (-0.995, 2), (1.995, 2), (0.996, 2), (0.999, 2), (0.9999999996, 9), (-0.001, 2), (-0.004, 2), (1e-10, 9), (5e-324, 9), (0.05, 1), (3.005, 2),
+            (2147483647.0, 2), (2147483647.0, 0), (-2147483647.0, 9), (2147483646.5, 0), (2147483646.999, 2), (2147483646.75, 1), (2147483647.5, 2),
+            (-2147483647.25, 2), (2147483647.999, 2), (2147483648.0, 2), (-2147483648.0, 0), (4294967296.5, 2), (1e300, 2), (float('inf'), 2),
+            (float('-inf'), 2), (float('nan'), 2), (0.1, -3), (0.15, 12), (123456.789, 3), (0.123456789, 9), (1.0 / 512, 9), (1.0 / 1024, 9)]
+ATOF_DIRECTED = ['0', '5', '5.0', '12.5', '-0.5', '+2.5', ' 2.5', '\t-7.50', '2.50', '12.25', '0.15', '.5', '5.', '-', '', '.', 'abc', '12abc', '1.5x', '1e2', '1E2',
+                 '1.5e1', '15E1', '150E-1', '150.0E-1', '1e', '1e+', '1e-', '1e+2', '2.5E0', '1e22', '1e23', '1e400', '1e-400', '1e4294967297', '1e4294967296',
+                 '9007199254740992', '9007199254740993', '123456789012345678', '-0', '-0.0', '--5', '+-5', '1..5', '1.5.5', '2147483647.0', '0.000000001',
+                 '00012.5', '1 2', '5e1.5', '2.147484e+09']
+
+
+def gen_float(rng, n):
+    lines = []
+    def d(x, p):
+        lines.append('dtoa %s %d' % (bits_of(x), p))
+    def rt(t, p):
+        lines.append('rt %s %d' % (hx(t), p))
+    for x, p in DIRECTED:
+        d(x, p)
+    for t in ATOF_DIRECTED:
+        lines.append('atof %s' % hx(t))
+        for p in (0, 2, 9):
+            rt(t, p)
+    for p in range(1, 10):                      # the decimals just below 1 whose scaled fraction is 10^p - 1/2
+        for w in (0, 1, 7, 99, 2147483):
+            x = float(Fraction(w) + 1 - Fraction(1, 2 * 10 ** p))
+            for k in (-1, 0, 1):
+                d(nextafter(x, k), p)
+    def whole(r):
+        c = r.random()
+        if c < 0.35:
+            return r.randrange(0, 10)
+        if c < 0.7:
+            return r.randrange(0, 10 ** r.randrange(1, 7))
+        if c < 0.95:
+            return r.randrange(0, 2 ** 31 - 1)
+        return r.choice((2 ** 31 - 2, 2 ** 31 - 3, 999999999, 1000000000, 2 ** 30, 2 ** 24 - 1))
+    for i in range(n):
+        c = rng.random()
+        sgn = rng.choice((1, 1, -1))
+        if c < 0.30:
+            # dyadic fractions k / 2^m: the scaled fraction is exact in binary64, these lines are compared with the model
+            m = rng.randrange(0, 13)
+            x = sgn * (whole(rng) + Fraction(rng.randrange(0, 2 ** m), 2 ** m))
+            p = rng.randrange(0, 10)
+            d(float(x), p)
+            if rng.random() < 0.3:
+                d(nextafter(float(x), rng.choice((-2, -1, 1, 2))), p)
+        elif c < 0.37:
+            d(float(sgn * whole(rng)), rng.randrange(-2, 12))
+        elif c < 0.62:
+            # q-digit decimals printed at p >= q (general doubles: real code + oracle only), and their text round trip
+            p = rng.randrange(1, 10)
+            q = rng.randrange(1, p + 1)
+            k = rng.randrange(0, 10 ** q)
+            w = whole(rng)
+            if rng.random() < 0.5:
+                w = rng.randrange(0, 1000)
+            v = Fraction(w) + Fraction(k, 10 ** q)
+            d(float(sgn * v), p)
+            t = canon(int(v * 10 ** p), p, sgn < 0 and v != 0)
+            rt(t, p)
+            if rng.random() < 0.3:
+                lines.append('atof %s' % hx(t))
+            if rng.random() < 0.2:
+                d(float(sgn * v), rng.randrange(0, q + 1))       # printed at fewer digits than it has
+        elif c < 0.80:
+            # within a few ulps of a tie (k + 1/2) / 10^p
+            p = rng.randrange(1, 10)
+            cw = rng.random()
+            w = 0 if cw < 0.4 else rng.randrange(0, 10) if cw < 0.7 else rng.randrange(0, 1000) if cw < 0.9 else whole(rng)
+            k = rng.randrange(0, 10 ** p)
+            if rng.random() < 0.1:
+                k = 10 ** p - 1
+            x = float(Fraction(w) + Fraction(2 * k + 1, 2 * 10 ** p))
+            d(sgn * nextafter(x, rng.randrange(-2, 3)), p)
+        elif c < 0.93:
+            # random bit patterns in range
+            e = rng.randrange(1023 - 40, 1023 + 31)
+            b = (e << 52) | rng.getrandbits(52) | (rng.getrandbits(1) << 63)
+            d(dbl('%016x' % b), rng.randrange(0, 10))
+        elif c < 0.96:
+            # exact-arithmetic texts for fast_atof / the string constructor (compared with the model)
+            w = rng.randrange(0, 10 ** rng.randrange(1, 10))
+            t = rng.choice(('', ' ', '+', '-', '-', '\t ')) + str(w) + rng.choice(('', '', '.', '.0', '.5', '.50', '.500', '.00')) + \
+                rng.choice(('', '', '', 'E1', 'e2', 'E+3', 'E-1', 'e0', 'x', ' 1', 'E', 'e-'))
+            lines.append('atof %s' % hx(t))
+            rt(t, rng.randrange(0, 10))
+        elif c < 0.9985:
+            # arbitrary short strings over the alphabet of the parser
+            t = ''.join(rng.choice('0123456789.+-eE x') for _ in range(rng.randrange(0, 10)))
+            lines.append('atof %s' % hx(t))
+            rt(t, rng.randrange(0, 10))
+        else:
+            x = rng.choice((2147483647.0, 2147483646.0, 2147483647.5, 2147483648.0, 1e10, 1e100))
+            d(sgn * nextafter(x, rng.randrange(-3, 4)), rng.randrange(0, 10))
+    return lines
+
+
 def nontrivial(line):
     w = line.split()
+    if w[0] in ('dtoa', 'rt'):
+        return (w[0], w[1], clamp(int(w[2])))
     return (w[0], w[1]) if len(w[1]) > 1 else None
 
 
 def run(res, replay=None):
     rng = vlib.rng_for('C08', res.seed)
-    errs = gen_facts.generate(['itoa_table'])
+    errs = gen_facts.generate(['itoa_table', 'dtoa_consts'])
     if replay:
         lines = [l.strip() for l in open(replay) if l.strip() and not l.startswith('#')]
     else:
-        lines = vlib.corpus_lines('C08') + gen(rng, 4000 if res.tier == 'quick' else 300000)
+        lines = vlib.corpus_lines('C08') + gen_int(rng, 2500 if res.tier == 'quick' else 300000) + \
+                gen_float(vlib.rng_for('C08f', res.seed), 9000 if res.tier == 'quick' else 250000)
     res.assumptions += ['int arithmetic modelled on unbounded Int plus the proved statement that no intermediate leaves the 32-bit range',
-                        'strings fed to fast_atoi are NUL-free 7-bit ASCII (char is signed in the C++)',
-                        'FLOATING HALF NOT PROVED: modp_dtoa/fast_atof have no Lean model; this check decides only the integer half of C08 (see DESIGN.md C08)']
+                        'strings fed to fast_atoi / fast_atof are NUL-free 7-bit ASCII (char is signed in the C++; isspace/isdigit/toupper in the C locale)',
+                        'FLOATING HALF: the theorems are about a model in EXACT rational arithmetic; binary64 rounding is NOT formalised. The model is tied to modp_dtoa/'
+                        'fast_atof/Field<double> only on inputs whose binary64 arithmetic is exact (the product (value-whole)*10^prec is representable; the parse raises no '
+                        'FE_INEXACT); on all other doubles the real code is judged by the property oracle alone',
+                        'domain of the floating theorems: precision 0..9 after the clamp, |value| <= 2147483647 (= thres_max; above it modp_dtoa uses sprintf("%e") and for '
+                        '|value| >= 2^31, +-inf the cast (int)value is undefined behaviour); NaN prints "nan"',
+                        'runtime/modp_numtoa.c is compiled into the harness translation unit (as C++, -O1, ASan+UBSan+float-cast-overflow) instead of linking the unsanitized library object']
     res.cov['rule'] = ('int32 values: boundary set, uniform, per-digit-count strata; each rendered by itoa<int> and Field<int>::print, its text parsed by '
-                       'fast_atoi<int> and Field<int>(string); plus non-canonical digit strings (leading zeros, stray ASCII, overflowing runs) for model/code '
-                       'agreement only. distinct by (op, argument); non-trivial = more than one character')
+                       'fast_atoi<int> and Field<int>(string); plus non-canonical digit strings for model/code agreement only. doubles: directed cases, dyadic fractions k/2^m '
+                       '(m<=12) with whole parts up to 2^31-1 and their neighbours, integers, q-digit decimals printed at p>=q and p<q, values within 2 ulps of a tie '
+                       '(k+1/2)/10^p, random bit patterns with exponent -40..30, values around thres_max, all at precisions 0..9 (and out-of-range precisions); each printed by '
+                       'modp_dtoa and Field<double>::print and parsed back by fast_atof and Field<double>(string); texts: canonical decimals, exact-arithmetic forms with '
+                       'sign/space/exponent/trailing bytes, random strings over the parser alphabet. distinct by (op, argument, clamped precision); non-trivial = more than one character')
+
+    stats = dict(dtoa=0, dtoa_exact=0, atof=0, atof_exact=0, rt=0, rt_exact=0, outside_domain=0, outside_domain_aborts=0)
+
     def compare(l, impl, model):
-        if model == 'ovf':
-            return impl.startswith('abort:ubsan') or True   # overflow is UB: any behaviour of the code is compatible with the model
+        w = l.split()
+        if w[0] in ('itoa', 'atoi'):
+            if model == 'ovf':
+                return True   # overflow is UB: any behaviour of the code is compatible with the model
+            return impl == model
+        iw, mw = impl.split(), model.split()
+        if w[0] == 'dtoa':
+            stats['dtoa'] += 1
+            if model == 'domain':
+                stats['outside_domain'] += 1
+                stats['outside_domain_aborts'] += impl.startswith('abort:')
+                return True   # nonfinite or above thres_max: not modelled
+            if mw[-1] != 'x':
+                return True   # the binary64 product rounds: real code judged by the oracle only
+            stats['dtoa_exact'] += 1
+            return len(iw) == 4 and iw[0] == mw[0]
+        if w[0] in ('atof', 'rt') and big_exp(bytes.fromhex(w[1]).decode('latin1') if w[1] != '-' else ''):
+            return True       # a decimal exponent >= 50 multiplies by the literal 1E50, which is itself not 10^50 (no FE_INEXACT): not exact arithmetic
+        if w[0] == 'atof':
+            stats['atof'] += 1
+            if not iw or iw[-1] != 'x':
+                return True   # the real parse rounded somewhere
+            stats['atof_exact'] += 1
+            return ' '.join(iw[:-1]) == model
+        if w[0] == 'rt':
+            stats['rt'] += 1
+            if model == 'domain' or mw[-1] != 'x' or not iw or iw[-1] != 'x':
+                return True
+            stats['rt_exact'] += 1
+            return iw[0] == mw[0]
         return impl == model
-    vlib.decide_stream(res, module='Fix8Model.Props.C08', theorems=THEOREMS, stream='num', harness_name='num',
-                       lines=lines, oracle=oracle, nontrivial=nontrivial, compare=compare, extra_obligation_problems=errs)
+
+    r = vlib.decide_stream(res, module='Fix8Model.Props.C08', theorems=THEOREMS, stream='num', harness_name='num', harness_kw=HARNESS_KW,
+                           lines=lines, oracle=oracle, nontrivial=nontrivial, compare=compare, extra_obligation_problems=errs)
+    if r:
+        stats['rt_judged_by_oracle'] = sum(1 for l in lines if l.startswith('rt ') and oracle(l, '00 00 x')[0] is not None)
+        stats['dtoa_judged_by_oracle'] = sum(1 for l, o in zip(lines, r['impl']) if l.startswith('dtoa ') and oracle(l, o)[0] is not None)
+        ub = sorted({o for l, o in zip(lines, r['impl']) if l.startswith('dtoa ') and o.startswith('abort:')})
+        if ub:
+            res.notes.append('undefined behaviour observed in modp_dtoa on inputs outside the modelled domain (not judged: |value| >= 2^31 or nonfinite is outside the '
+                             'property; 2^31-1 < |value| < 2^31 is the known class dtoa-above-thres-max): ' + '; '.join(ub)[:600])
+    res.cov['float_stats'] = stats
